@@ -271,6 +271,11 @@ def main():
         ok, out = regenerate()
         if not ok:
             broken.append({"kind": "translator", "message": out[-600:]})
+        # skeleton tie of the hand-transcribed functions
+        if spec.get("skeleton"):
+            rc_sk, out_sk = sh([sys.executable, os.path.join(ROOT, "tools", "skeleton.py"), "check", ",".join(spec["skeleton"])])
+            if rc_sk != 0:
+                broken.append({"kind": "skeleton-tie", "message": out_sk[-1200:]})
         # model + checkers first (must build even when a proof is broken)
         okm, outm = coq_make([f + "o" for f in spec["run_files"]])
         if not okm:
